@@ -222,9 +222,9 @@ public:
     ///
     virtual void compute(ConstGenericMatrix& mat, const Scalar& shift = Scalar(0))
     {
-        m_n = mat.rows();
-        if (m_n != mat.cols())
+        if (mat.rows() != mat.cols())
             throw std::invalid_argument("UpperHessenbergQR: matrix must be square");
+        m_n = mat.rows();
 
         m_shift = shift;
         m_mat_R.resize(m_n, m_n);
@@ -602,9 +602,9 @@ public:
     {
         using std::abs;
 
-        m_n = mat.rows();
-        if (m_n != mat.cols())
+        if (mat.rows() != mat.cols())
             throw std::invalid_argument("TridiagQR: matrix must be square");
+        m_n = mat.rows();
 
         m_shift = shift;
         m_rot_cos.resize(m_n - 1);
